@@ -1150,13 +1150,26 @@ func (root *Root) AddEvent(id string, event interface{}) (cnt int, err error) {
 }
 
 func (root *Root) assureSchema() {
-	if root.schema == nil {
-		root.schema = &Schema{Object: Object{fields: fieldList{dict: map[string]*FieldDef{}}}}
-		for _, cap := range []string{"Query", "Mutation", "Subscription"} {
-			if t := root.types.get(cap); t != nil {
-				name := strings.ToLower(cap)
-				_ = root.schema.fields.add(&FieldDef{Base: Base{N: name}, Type: t})
+	if root.schema != nil && !root.schema.implied {
+		return
+	}
+	// An implied schema follows the types. A Query, Mutation, or Subscription
+	// type can arrive in a later load than the first. A new Schema is formed
+	// instead of updating the current one so a failed load can be reverted.
+	schema := &Schema{Object: Object{fields: fieldList{dict: map[string]*FieldDef{}}}, implied: true}
+	same := root.schema != nil
+	for _, cap := range []string{"Query", "Mutation", "Subscription"} {
+		if t := root.types.get(cap); t != nil {
+			name := strings.ToLower(cap)
+			_ = schema.fields.add(&FieldDef{Base: Base{N: name}, Type: t})
+			if same {
+				if fd := root.schema.fields.get(name); fd == nil || fd.Type != t {
+					same = false
+				}
 			}
 		}
+	}
+	if !same || schema.fields.Len() != root.schema.fields.Len() {
+		root.schema = schema
 	}
 }
